@@ -93,6 +93,8 @@ pub struct Sel {
 pub enum Form {
     Select(Sel),
     Ask(G),
+    /// ASK with solution modifiers (OFFSET, LIMIT): the answer is whether the *sliced* sequence is non-empty
+    AskSlice(G, Option<u32>, Option<u32>),
     Construct(G),
     Describe(G),
 }
@@ -245,6 +247,16 @@ impl Q {
                 t.replacen("WHERE ", &format!("{ds}WHERE "), 1)
             }
             Form::Ask(g) => format!("ASK {ds}WHERE {}", r.g(g)),
+            Form::AskSlice(g, offset, limit) => {
+                let mut t = format!("ASK {ds}WHERE {}", r.g(g));
+                if let Some(o) = offset {
+                    t.push_str(&format!(" OFFSET {o}"));
+                }
+                if let Some(l) = limit {
+                    t.push_str(&format!(" LIMIT {l}"));
+                }
+                t
+            }
             Form::Construct(g) => format!("CONSTRUCT {{ ?a <http://x/p> ?b }} {ds}WHERE {}", r.g(g)),
             Form::Describe(g) => format!("DESCRIBE ?a {ds}WHERE {}", r.g(g)),
         }
@@ -1149,7 +1161,8 @@ fn select(depth: u32, top: bool) -> BoxedStrategy<Sel> {
 fn query() -> BoxedStrategy<Q> {
     let form = prop_oneof![
         30 => select(2, true).prop_map(Form::Select),
-        10 => group(2, true).prop_map(Form::Ask),
+        8 => group(2, true).prop_map(Form::Ask),
+        3 => (group(2, true), prop::option::of(0u32..4), prop::option::of(0u32..3)).prop_map(|(g, o, l)| Form::AskSlice(g, o, l)),
         1 => group(1, true).prop_map(|g| if g.0.len() % 2 == 0 { Form::Construct(g) } else { Form::Describe(g) }),
     ];
     let ds = prop_oneof![
@@ -1472,9 +1485,18 @@ impl Check for C13 {
         };
         match (kind, outcome) {
             ("ask", Outcome::Bool(b)) => {
-                let exp = !rows.is_empty();
+                // the answer is about the sequence *after* the outermost OFFSET / LIMIT
+                let mut left = rows.len();
+                if let Some((start, length)) = slice {
+                    ctx.class("ask-with-slice");
+                    left = left.saturating_sub(start);
+                    if let Some(l) = length {
+                        left = left.min(l);
+                    }
+                }
+                let exp = left > 0;
                 if b != exp {
-                    ctx.fail(sig("ask"), format!("ASK answered {b}, the algebra gives {exp} ({} solutions)\n{}", rows.len(), data()));
+                    ctx.fail(sig("ask"), format!("ASK answered {b}, the algebra gives {exp} ({} solutions before the slice {slice:?})\n{}", rows.len(), data()));
                 }
             }
             ("select", Outcome::Rows { vars, rows: got }) => {
